@@ -1001,8 +1001,8 @@ func TestVerifC12(t *testing.T) {
 	}
 
 	// ---- generated sequences
-	big := vfutil.Scale(40, 400)
-	for i := 0; i < vfutil.Scale(500, 6000); i++ {
+	big := vfutil.Scale(40, 250)
+	for i := 0; i < vfutil.Scale(500, 4000); i++ {
 		nc := r.Range(1, 6)
 		if r.Chance(1, 10) {
 			nc = r.Range(7, vfutil.Scale(60, 300))
